@@ -26,3 +26,53 @@ void h_dir_reverse(void)
 	__CPROVER_assert(0, "canary");
 #endif
 }
+
+/* ================================================================== dir_context: the base direction of a line (C18) */
+struct ghost_dc { int found, table_dir, table_has, find_calls; char *find_s; } DC;
+int rset_find(struct rset *rs, char *s, int n, int *grps, int flg)
+{
+	__CPROVER_assert(rs != 0 && s != 0 && n == 0, "rset_find: compiled set, a line, no groups asked for");
+	DC.find_calls++;
+	DC.find_s = s;
+	return DC.found;
+}
+/* conf.c's table lookup: fails outside the table, otherwise reports the entry's direction (+1 / -1) */
+int conf_dircontext(int idx, char **pat, int *ctx)
+{
+	if (idx < 0 || !DC.table_has)
+		return 1;
+	if (ctx)
+		*ctx = DC.table_dir;
+	return 0;
+}
+int dir_context_frame_contract(char *s)
+__CPROVER_requires(s != 0)
+__CPROVER_assigns(DC)
+;
+static struct rset { int d; } g_rsctx;
+void h_dir_context(void)
+{
+	char s[2];
+	GHOST_INIT();
+	s[0] = nondet_char(); s[1] = 0;
+	xtd = nondet_int();
+	DC.found = nondet_int(); DC.table_has = nondet_bool(); DC.table_dir = nondet_bool() ? +1 : -1; DC.find_calls = 0;
+	__CPROVER_assume(DC.found >= -1);
+	dir_rsctx = nondet_bool() ? &g_rsctx : (struct rset *) 0;
+	int has_set = dir_rsctx != 0;
+	int r = dir_context(s);
+	__CPROVER_assert(r == +1 || r == -1, "dir_context: a direction");
+	if (xtd > 1)
+		__CPROVER_assert(r == +1 && DC.find_calls == 0, "dir_context: td=2 forces left-to-right, no pattern is consulted");
+	else if (xtd < -1)
+		__CPROVER_assert(r == -1 && DC.find_calls == 0, "dir_context: td=-2 forces right-to-left, no pattern is consulted");
+	else if (xtd == 0 && !((unsigned char) s[0] & 0x80))
+		__CPROVER_assert(r == +1 && DC.find_calls == 0, "dir_context: td=0 and a line starting with an ASCII byte is left-to-right");
+	else if (has_set && DC.found >= 0 && DC.table_has)
+		__CPROVER_assert(r == DC.table_dir && DC.find_s == s, "dir_context: otherwise the first matching context pattern decides");
+	else
+		__CPROVER_assert(r == (xtd < 0 ? -1 : +1), "dir_context: no pattern matches - td=-1 means right-to-left, td=0/+1 left-to-right");
+#ifdef CANARY
+	__CPROVER_assert(0, "canary");
+#endif
+}
